@@ -397,7 +397,10 @@ def run_wf_case(case, env: Env, orc: Oracle):
                     s2 = arr(w2)
                     exp = s * fac if fac is not None else s / float(op[1])
                     sc = float(np.max(np.abs(exp))) if d else 0.0
-                    tol = 1e-9 * sc + (4e-9 if has_interp(w) else 0.0) + 1e-300
+                    # interpolated samples are rounded to <= 9 decimals (abs. error 0.5e-9)
+                    # before and after the scaling
+                    f_abs = abs(fac) if fac is not None else abs(1.0 / float(op[1]))
+                    tol = 1e-9 * sc + (0.6e-9 * (1.0 + f_abs) if has_interp(w) else 0.0) + 1e-300
                     if np.max(np.abs(s2 - exp)) > tol:
                         orc.bad("scale:samples:" + k, f"{k} by {op[1] if len(op) > 1 else -1}: samples are not the scaled samples (max dev {np.max(np.abs(s2 - exp))})")
                 r = [0, wf_full(w2)]
